@@ -39,14 +39,23 @@ def plugin_dir():
     return os.path.join(V.BUILD, "c18plugins")
 
 
-def write_plugin(name, messages, sleep_ms=0):
-    """a fake lint plugin `falco-<name>`: swallows the encoded statement, prints its diagnostics"""
+def write_plugin(name, messages, sleep_ms=0, kind="ok"):
+    """a fake lint plugin `falco-<name>`: swallows the encoded statement, prints its diagnostics.
+    kind: ok | exit1 (fails after writing to stderr) | badjson (answers garbage) | missing (no executable)"""
     d = plugin_dir()
     os.makedirs(d, exist_ok=True)
     p = os.path.join(d, "falco-" + name)
+    if kind == "missing":
+        if os.path.exists(p):
+            os.remove(p)
+        return p
     errs = ",".join('{"Severity":%d,"Message":"%s"}' % (1 + i % 3, m) for i, m in enumerate(messages))
-    txt = "#!/bin/sh\ncat > /dev/null\n%sprintf '%%s\\n' '{\"errors\":[%s]}'\n" % (
-        ("sleep %s\n" % (sleep_ms / 1000.0)) if sleep_ms else "", errs)
+    tail = "printf '%%s\\n' '{\"errors\":[%s]}'\n" % errs
+    if kind == "exit1":
+        tail = "echo %s-stderr >&2\nexit 1\n" % name
+    elif kind == "badjson":
+        tail = "echo 'this is not json'\n"
+    txt = "#!/bin/sh\ncat > /dev/null\n%s%s" % (("sleep %s\n" % (sleep_ms / 1000.0)) if sleep_ms else "", tail)
     if V._read(p) != txt:
         with open(p, "w") as f:
             f.write(txt)
